@@ -99,7 +99,8 @@ func compareAudit(r *AuditRec, lin *Lin, ex *Expect, insts map[string]*simrt.OpI
 			return "audit-command", fmt.Sprintf("%s: Command %q is not the command that was executed (%q)", where, r.Command, o.Script)
 		}
 		words := strings.Fields(r.Command)
-		if strings.Join(words, " ") != strings.Join(o.Argv, " ") {
+		// (the command may be one stage of a pipeline: "false | op ...")
+		if !strings.HasSuffix(strings.Join(words, " "), strings.Join(o.Argv, " ")) {
 			return "audit-command", fmt.Sprintf("%s: Command %q differs from the executed argv %v", where, r.Command, o.Argv)
 		}
 	}
